@@ -780,9 +780,10 @@ def correspondence(ctx):
 
 
 if __name__ == "__main__":
+    import translate_c02
     common.run_check(
         "C02", module="Bermuda.Properties.C02", driver_targets=["drv_c02"],
-        correspondence=correspondence, level="proof",
+        correspondence=correspondence, level="proof", extra_translate=translate_c02.regenerate,
         rule="per random base triangle (1-8 cells, 1-3 slices, three cell classes, int/float scalars, int64/float64 "
              "arrays, optional None field): permuted (list/tuple/generator), re-typed (Cell<->CumulativeCell, int<->float, "
              "numpy scalars, int64<->float64, dict orders, detail number types, 0-d arrays) and round-tripped (JSON, "
